@@ -371,3 +371,65 @@ def run(rep, facts, tier):
             good = v[0] == 'phi' and any(x == ('const', 'int', 1) for x in v[1]) and term_has(v, lambda x: x[0] == 'call' and x[1].endswith('check_action'))
             rep.check(good, 'R18.4', 'check_entity/result#%d' % n_ok, 'Ok(unprotected || permitted)',
                       'check_entity\'s result is not (unprotected OR permitted): %s' % term_str(v)[:140], ce.where(bb, si))
+
+    rule_18_5(rep, fx)
+
+
+# what may be done with a zoned timestamp (chrono::DateTime<FixedOffset>) read from a permissions document: only operations that keep the instant
+INSTANT_PRESERVING = ('std::convert::From::from', 'std::convert::Into::into', 'chrono::DateTime::with_timezone', 'chrono::DateTime::to_utc', 'chrono::DateTime::naive_utc',
+                      'chrono::DateTime::timestamp', 'chrono::DateTime::timestamp_millis', 'chrono::DateTime::timestamp_micros', 'chrono::DateTime::timestamp_nanos_opt',
+                      'chrono::DateTime::timestamp_subsec_nanos', 'chrono::DateTime::timestamp_subsec_millis', 'chrono::DateTime::timestamp_subsec_micros',
+                      'std::clone::Clone::clone', 'chrono::DateTime::fixed_offset')
+ZONED = 'chrono::DateTime<chrono::FixedOffset>'
+COMBINATORS = ('::map', '::and_then', '::map_or', '::map_or_else', '::is_ok_and', '::inspect')
+
+
+def rule_18_5(rep, fx):
+    rep.rule('R18.5', 'grant validity keeps the instant: in Grant::parse_time (and its closures) a zoned timestamp parsed from the document is only converted by '
+                      'instant-preserving operations (From/Into DateTime<Utc>, with_timezone, to_utc, naive_utc, timestamp*); its wall-clock reading is never taken as UTC')
+    b = fx.find('domain_participant_permissions_document::Grant::parse_time')
+    bodies = [b] + fx.closures_of(b)
+    rep.analysed(*bodies)
+    n = 0
+    closure_by_ty = {}
+    for c in fx.closures_of(b):
+        closure_by_ty[c.locals[1] if len(c.locals) > 1 else ''] = c
+
+    def is_zoned(ty):
+        return ZONED in (ty or '').replace("'_ ", '')
+    for x in bodies:
+        for bb, t in x.calls():
+            r = strip_generics(callee_res(t))
+            d = strip_generics(t['f'].get('def') or '')
+            arg_tys = [x.locals[a['pl']['l']] if a.get('o') in ('copy', 'move') else '' for a in t['args']]
+            if not any(is_zoned(ty) for ty in arg_tys):
+                continue
+            if r.endswith(COMBINATORS) and 'Result' in (arg_tys[0] or '') or r.endswith(COMBINATORS) and 'Option' in (arg_tys[0] or ''):
+                # the function applied to the zoned value
+                for a, ty in list(zip(t['args'], arg_tys))[1:]:
+                    n += 1
+                    if a.get('o') == 'const' and a['k'].get('c') == 'fn':
+                        fd = strip_generics(a['k'].get('def') or '')
+                        good = fd in INSTANT_PRESERVING
+                        if fd in ('std::convert::From::from', 'std::convert::Into::into'):
+                            good = any('chrono::DateTime<chrono::Utc>' in g for g in a['k'].get('args') or [])
+                        rep.check(good, 'R18.5', 'parse_time/%s#%d' % (r.rsplit('::', 1)[-1], n), 'zoned timestamp mapped by %s' % fd,
+                                  'the zoned validity timestamp is converted by %s, which is not known to keep the instant' % fd, x.where(bb))
+                    elif ty in closure_by_ty or 'closure' in (ty or ''):
+                        rep.ok('R18.5', 'parse_time/%s#%d' % (r.rsplit('::', 1)[-1], n), 'closure: its calls on the zoned value are checked individually', x.where(bb))
+                    else:
+                        rep.violation('R18.5', 'parse_time/%s#%d' % (r.rsplit('::', 1)[-1], n), 'the zoned validity timestamp is handed to a function value the rule cannot resolve', x.where(bb))
+                continue
+            if r.endswith(('::or_else', '::map_err', '::ok', '::unwrap_or_else', '::unwrap_or', 'Try>::branch', '::from_residual', '::unwrap', '::expect', '::is_ok', '::is_err')):
+                continue   # these do not touch the Ok value
+            n += 1
+            good = d in INSTANT_PRESERVING or r in INSTANT_PRESERVING or any(r.endswith('::' + p.rsplit('::', 1)[-1]) and 'chrono::DateTime' in r for p in INSTANT_PRESERVING)
+            if d in ('std::convert::From::from', 'std::convert::Into::into'):
+                good = 'chrono::DateTime<chrono::Utc>' in (x.locals[t['dest']['l']] or '')
+            if 'fmt' in r or r.startswith('core::fmt') or r.startswith('std::fmt'):
+                good = True
+            rep.check(good, 'R18.5', '%s/%s#%d' % (x.key.rsplit('::', 2)[-1] if x is not b else 'parse_time', r.rsplit('::', 1)[-1], n),
+                      'instant-preserving use of the zoned timestamp (%s)' % r,
+                      'Grant::parse_time applies %s to the zoned timestamp: the zone offset is dropped and the wall-clock reading is taken as UTC, so not_before/not_after '
+                      'move by the offset and a grant is honoured or refused at instants where the signed document says the opposite' % r, x.where(bb))
+    rep.floor('R18.5', n, 1, 'uses of the zoned timestamp in Grant::parse_time')
